@@ -135,8 +135,9 @@ def finish(ctx: Ctx, cmd: str) -> int:
     # fail-closed on vacuous rules
     vacuous = [s for s in ctx.rules.values() if s.instances < s.min_instances]
     wall = time.time() - ctx.t0
-    obligations = sum(s.obligations for s in ctx.rules.values())
     discharged = sum(s.discharged for s in ctx.rules.values())
+    # obligations that failed on a listed known finding are reported separately
+    obligations = discharged + len(unknown)
     instances = sum(s.instances for s in ctx.rules.values())
     functions = sorted({f for s in ctx.rules.values() for f in s.functions})
     samples = []
